@@ -99,13 +99,18 @@ def stage(h):
             # the staged crate uses the staged copy of the harness module, so that playback
             # tests can be added next to the harnesses without touching /verif
             lib = os.path.join(st, "repo", "src", "lib.rs")
-            s = open(lib).read()
-            if HOOK_PATH_LINE not in s:
+            if HOOK_PATH_LINE not in open(lib).read():
                 raise RuntimeError(
                     "hook H1 (cfg(kani) harness module) is missing from %s/src/lib.rs" % REPO
                 )
-            s = s.replace(HOOK_PATH_LINE, '#[path = "%s/harness/mod.rs"]' % st)
-            open(lib, "w").write(s)
+            srcdir = os.path.join(st, "repo", "src")
+            for fn in os.listdir(srcdir):
+                if fn.endswith(".rs"):
+                    fp = os.path.join(srcdir, fn)
+                    s = open(fp).read()
+                    if '#[path = "/verif/kani/harness/' in s:
+                        s = s.replace('#[path = "/verif/kani/harness/', '#[path = "%s/harness/' % st)
+                        open(fp, "w").write(s)
             open(os.path.join(st, ".ready"), "w").write(str(time.time()))
         # garbage-collect older stages (keep the 3 newest)
         olds = sorted(
@@ -288,13 +293,27 @@ def classify(res):
     return "pass", ""
 
 
+def full_name(name):
+    """harness names are relative to the verif_kani module; '@a::b::f' is crate-absolute"""
+    return name[1:] if name.startswith("@") else "verif_kani::" + name
+
+
+def harness_file(name):
+    """harness source file (relative to the harness directory) that defines `name`"""
+    if name.startswith("@builder::verif_kani_in_builder"):
+        return "in_builder.rs"
+    if name.startswith("@"):
+        return name[1:].split("::")[-2] + ".rs"
+    return name.split("::")[0] + ".rs"
+
+
 def run_harness(stage_dir, h, spec, extra_kani=(), playback=False, log_dir=None):
     """run one harness; returns result dict (cached by source hash + spec)"""
     name = spec["name"]
-    full = "verif_kani::" + name
+    full = full_name(name)
     key = hashlib.sha256(json.dumps([name, spec.get("kani", []), spec.get("cbmc", []), list(extra_kani)], sort_keys=True).encode()).hexdigest()[:12]
     cdir = os.path.join(SCRATCH, "cache", h)
-    cfile = os.path.join(cdir, name.replace("::", "__") + "-" + key + ".json")
+    cfile = os.path.join(cdir, name.replace("::", "__").replace("@", "") + "-" + key + ".json")
     if not NOCACHE and not playback and os.path.exists(cfile):
         try:
             r = json.load(open(cfile))
@@ -326,7 +345,7 @@ def run_harness(stage_dir, h, spec, extra_kani=(), playback=False, log_dir=None)
     wall = time.time() - t0
     if log_dir:
         os.makedirs(log_dir, exist_ok=True)
-        open(os.path.join(log_dir, name.replace("::", "__") + (".playback" if playback else "") + ".log"), "w").write(out)
+        open(os.path.join(log_dir, name.replace("::", "__").replace("@", "") + (".playback" if playback else "") + ".log"), "w").write(out)
     r = parse_output(out)
     r.update({"name": name, "wall_s": round(wall, 2), "rc": p.returncode, "cached": False, "timeout_s": timeout, "mem_gb": mem_gb})
     if p.returncode == 124 or p.returncode == 137:
@@ -373,16 +392,16 @@ def replay(stage_dir, h, spec, prop, log_dir):
     if chosen is None:
         return False, None, "no concrete playback test produced for the failing check"
     fn = re.search(r"fn (kani_concrete_playback_\w+)\(", chosen).group(1)
-    modfile = os.path.join(stage_dir, "harness", name.split("::")[0] + ".rs")
+    modfile = os.path.join(stage_dir, "harness", harness_file(name))
     src = open(modfile).read()
     marker = "\n// ---- playback tests appended by /verif/bin/check ----\n"
     if fn not in src:
         open(modfile, "w").write(src + marker + chosen + "\n")
     os.makedirs(os.path.join(VERIF, "replays"), exist_ok=True)
-    rp = os.path.join(VERIF, "replays", "%s-%s-%s.rs" % (prop, name.replace("::", "__"), h))
+    rp = os.path.join(VERIF, "replays", "%s-%s-%s.rs" % (prop, name.replace("::", "__").replace("@", ""), h))
     outcomes = {}
     with Slot() as tgt:
-        for profile in ("dev", "release"):
+        for profile in ("dev",):  # cargo-kani 0.68 playback has no --release
             cmd = ["cargo", "kani", "playback", "-Z", "concrete-playback"]
             if profile == "release":
                 cmd.append("--release")
@@ -399,7 +418,7 @@ def replay(stage_dir, h, spec, prop, log_dir):
                 errors="replace",
             )
             out = p.stdout
-            open(os.path.join(log_dir, name.replace("::", "__") + ".native-%s.log" % profile), "w").write(out)
+            open(os.path.join(log_dir, name.replace("::", "__").replace("@", "") + ".native-%s.log" % profile), "w").write(out)
             ran = re.search(r"running 1 test", out) is not None
             failed = re.search(r"test result: FAILED", out) is not None or "panicked at" in out
             fired = [l for l in out.splitlines() if l.startswith("ORACLE-FAILED") or "VERIF-DEADLOCK" in l or "PROPERTY C" in l or "panicked at" in l]
@@ -407,6 +426,7 @@ def replay(stage_dir, h, spec, prop, log_dir):
             if profile == "release" and not ran and "error" in out:
                 # release playback may be unsupported by this cargo-kani; dev decides
                 outcomes[profile]["note"] = "release playback did not build"
+    outcomes["release"] = {"ran": False, "failed": False, "lines": [], "note": "cargo kani playback (0.68) cannot build the release profile"}
     reproduced = outcomes["dev"]["ran"] and outcomes["dev"]["failed"]
     with open(rp, "w") as f:
         f.write("// property %s, harness %s, source hash %s\n" % (prop, name, h))
@@ -694,7 +714,7 @@ def replay_file(path):
     fn = re.search(r"fn (kani_concrete_playback_\w+)\(", test).group(1)
     h = source_hash()
     st = stage(h)
-    modfile = os.path.join(st, "harness", name.split("::")[0] + ".rs")
+    modfile = os.path.join(st, "harness", harness_file(name))
     src = open(modfile).read()
     open(modfile, "w").write(src + "\n" + test + "\n")
     try:
